@@ -7,20 +7,23 @@
     [debug_assert], a [{:width$}] above the u16 limit).  [dw] is the display-width function (arbitrary).
     [cmd_ok dw c]: the arguments are built ([arg_ok]: the number of values is resolved, a positional takes
     a value and has an index) and every rendered left column is at most 65 523 columns wide (observation N:
-    core::fmt limits run-time widths to u16; the bound is 65 535 - 12). *)
-From ClapModel Require Import Base.Bytes Base.Machine Parse.Cmd Parse.Build Parse.Valid Parse.Errors Parse.Parser.
-From ClapModel Require Import Gen.HelpTables Help.UsageModel Help.HelpModel Help.HelpProofs Help.HelpLevel Help.HelpSpecVals Help.HelpDispatch Help.HelpUsage Help.HelpGlobals.
+    core::fmt limits run-time widths to u16; the bound is 65 535 - 12).
+    [refs_ok c] (round 3, groups and [requires]): group ids are unique, every group member is an argument,
+    every id named by a [requires] rule of an argument or of a group exists -- what debug_asserts.rs checks. *)
+From ClapModel Require Import Base.Bytes Base.Machine Parse.Cmd Parse.Build Parse.Valid Parse.Matcher Parse.Errors Parse.Validator Parse.Parser.
+From ClapModel Require Import ParseProofs.Spelling.
+From ClapModel Require Import Gen.HelpTables Help.UsageModel Help.HelpModel Help.HelpReqs Help.HelpProofs Help.HelpLevel Help.HelpSpecVals Help.HelpDispatch Help.HelpUsage Help.HelpGlobals Help.HelpTemplate Help.HelpHeadings Help.HelpRefsBuild Help.HelpFlagGen.
 From RecordUpdate Require Import RecordSet.
 Import RecordSetNotations.
 Open Scope N_scope.
 
 (** no panic, for every command, width, mode and display-width function *)
-Theorem C12_padding_safe : forall dw c use_long w, cmd_ok dw c -> write_help dw c use_long w <> None.
+Theorem C12_padding_safe : forall dw c use_long w, cmd_ok dw c -> refs_ok c = true -> write_help dw c use_long w <> None.
 Proof. exact padding_safe. Qed.
 Print Assumptions C12_padding_safe.
 
 Theorem C12_render_total : forall dw c use_long w,
-  hc_built c = false -> spec_ok c -> widths_ok dw (h_build_self c) ->
+  hc_built c = false -> spec_ok c -> widths_ok dw (h_build_self c) -> refs_ok (h_build_self c) = true ->
   render_help dw c use_long w <> None /\ render_usage c <> None.
 Proof. exact render_total. Qed.
 Print Assumptions C12_render_total.
@@ -44,7 +47,7 @@ Print Assumptions C12_lists_visible_args.
 Theorem C12_lists_visible_subs : forall dw c use_long w s sc,
   NoDup (map sc_str (hc_subs c)) -> write_help dw c use_long w = Some s ->
   In sc (hc_subs c) -> hc_hide sc = false -> hc_name sc <> s_help ->
-  exists sec r, In sec (scr_sections s) /\ s_title sec = s_commands /\ In r (s_rows sec) /\ r_id r = hc_name sc.
+  exists sec r, In sec (scr_sections s) /\ s_title sec = sub_section_title c /\ In r (s_rows sec) /\ r_id r = hc_name sc.
 Proof. exact lists_visible_subs. Qed.
 Print Assumptions C12_lists_visible_subs.
 
@@ -64,10 +67,13 @@ Theorem C12_hidden_not_shown : forall use_long a,
 Proof. exact hidden_not_shown. Qed.
 Print Assumptions C12_hidden_not_shown.
 
-(** an optional hidden argument contributes no piece of the usage line *)
-Theorem C12_usage_hides_hidden : forall c items a,
-  NoDup (map ha_id (hc_args c)) -> args_ok c -> usage_arg_items c = Some items ->
-  In a (hc_args c) -> ha_hide a = true -> ha_required a = false -> ~ In (ha_id a) (map fst items).
+(** a hidden argument that is optional -- not required, and named by no unconditional [requires] rule of an
+    argument nor as / by a required group ([req_srcb] = false; round 3) -- contributes no piece of the usage
+    line, in either form ([force_optional] = the second line under [subcommand_negates_reqs]) *)
+Theorem C12_usage_hides_hidden : forall c fo items a,
+  NoDup (map ha_id (hc_args c)) -> args_ok c -> refs_ok c = true -> usage_arg_items c fo = Some items ->
+  In a (hc_args c) -> ha_hide a = true -> req_srcb c (ha_id a) = false -> find_group (pcmd_of c) (ha_id a) = None ->
+  ~ In (ha_id a) (map fst items).
 Proof. exact usage_hides_hidden. Qed.
 Print Assumptions C12_usage_hides_hidden.
 
@@ -119,6 +125,9 @@ Theorem C12_hypotheses_satisfiable :
   hc_built ex_cmd = false /\ spec_ok ex_cmd /\ cmd_ok len (h_build_self ex_cmd)
   /\ NoDup (map ha_id (hc_args (h_build_self ex_cmd))) /\ NoDup (map sc_str (hc_subs (h_build_self ex_cmd))).
 Proof. exact ex_cmd_hyps. Qed.
+Theorem C12_hypotheses_satisfiable_refs : refs_ok (h_build_self ex_cmd) = true.
+Proof. exact ex_cmd_refs. Qed.
+Print Assumptions C12_hypotheses_satisfiable_refs.
 Print Assumptions C12_hypotheses_satisfiable.
 
 (** ---- round 2: [spec_vals] (env, defaults, aliases, possible values) ---- *)
@@ -219,24 +228,96 @@ Theorem C12_help_chain_satisfiable :
 Proof. exact hd_hyps. Qed.
 Print Assumptions C12_help_chain_satisfiable.
 
-(** ---- round 2: the usage line mentions every required positional ---- *)
+(** ---- rounds 2 and 3: the usage line (groups, [requires], the subcommand forms) ---- *)
 
-(** on a built command whose positional indices identify the argument (what [_build_self] and the debug
-    asserts establish) every required positional -- hidden or not -- has its piece in the usage line *)
+(** the usage line never panics: for every built command whose references resolve, [write_help_usage]
+    (without [flatten_help]) returns its pieces -- the worklists of [unroll_arg_requires] /
+    [unroll_args_in_group] terminate, the [expect] of the group lookup, both [debug_assert!]s of
+    [write_args], [pos.get_index().unwrap()] and the [debug_assert!] of [render_arg_val] are not reached *)
+Theorem C12_usage_total : forall c, args_ok c -> refs_ok c = true -> usage_pieces c <> None.
+Proof. exact usage_total. Qed.
+Print Assumptions C12_usage_total.
+
+(** where every piece of [Usage::write_args] comes from: an argument among the unrolled requirements that
+    is not a member of a listed group, a positional that is not hidden (nor such a member), or a group among
+    the requirements, written by [format_group] *)
+Theorem C12_usage_piece_sources : forall c fo, args_ok c -> refs_ok c = true ->
+  exists items, usage_arg_items c fo = Some items /\ forall x, In x items -> usage_src c x.
+Proof. exact usage_arg_items_spec. Qed.
+Print Assumptions C12_usage_piece_sources.
+
+(** every required argument is mentioned: inside the [<a|b>] piece of a listed group it is a member of,
+    else by a piece of its own (positional: its slot; option: its rendered text) *)
+Theorem C12_usage_mentions_required : forall c a,
+  NoDup (map ha_id (hc_args c)) -> In a (hc_args c) ->
+  (forall b i, In b (hc_args c) -> ha_index b = Some i -> ha_index a = Some i -> ha_id b = ha_id a) ->
+  forall items, args_ok c -> refs_ok c = true -> usage_arg_items c false = Some items -> ha_required a = true ->
+  if mem_id (ha_id a) (usage_members c)
+  then exists g gm txt, In g (usage_reqs c) /\ unroll_args_in_group (pcmd_of c) g = Some gm /\ In (ha_id a) gm
+                        /\ format_group c g = Some txt /\ In txt (map snd items)
+  else match ha_index a with
+       | Some _ => In (ha_id a) (map fst items)
+       | None => forall s, stylized a (Some true) = Some s -> In s (map snd items)
+       end.
+Proof. exact usage_mentions_required. Qed.
+Print Assumptions C12_usage_mentions_required.
+
+(** round 2's statement for positionals, for commands with groups *)
 Theorem C12_usage_lists_required_positionals : forall c items a,
-  args_ok c -> usage_arg_items c = Some items ->
+  NoDup (map ha_id (hc_args c)) -> args_ok c -> refs_ok c = true -> usage_arg_items c false = Some items ->
   In a (hc_args c) -> ha_is_positional a = true -> ha_required a = true ->
+  mem_id (ha_id a) (usage_members c) = false ->
   (forall b, In b (hc_args c) -> ha_index b = ha_index a -> ha_id b = ha_id a) ->
   In (ha_id a) (map fst items).
 Proof. exact usage_lists_required_positionals. Qed.
 Print Assumptions C12_usage_lists_required_positionals.
 
+(** non-vacuity: required group [<--a|--b <b>>], [--r] requires [--x], hidden optional [--z], required
+    positional [f], optional hidden [last] positional [l]: every hypothesis of the three theorems holds *)
 Theorem C12_usage_required_satisfiable :
-  args_ok ex_built /\ usage_arg_items ex_built = Some [([102], [60; 102; 62])] /\ In ex_f (hc_args ex_built)
-  /\ ha_is_positional ex_f = true /\ ha_required ex_f = true
-  /\ (forall b, In b (hc_args ex_built) -> ha_index b = ha_index ex_f -> ha_id b = ha_id ex_f).
-Proof. exact ex_cmd_usage. Qed.
+  NoDup (map ha_id (hc_args rq_built)) /\ args_ok rq_built /\ refs_ok rq_built = true
+  /\ (exists items, usage_arg_items rq_built false = Some items)
+  /\ In (rq_arg 4) (hc_args rq_built) /\ ha_hide (rq_arg 4) = true /\ req_srcb rq_built (ha_id (rq_arg 4)) = false
+  /\ find_group (pcmd_of rq_built) (ha_id (rq_arg 4)) = None
+  /\ In (rq_arg 6) (hc_args rq_built) /\ ha_hide (rq_arg 6) = true /\ ha_last (rq_arg 6) = true
+  /\ req_srcb rq_built (ha_id (rq_arg 6)) = false /\ find_group (pcmd_of rq_built) (ha_id (rq_arg 6)) = None
+  /\ ha_required (rq_arg 2) = true /\ ha_required (rq_arg 5) = true
+  /\ mem_id (ha_id (rq_arg 2)) (usage_members rq_built) = false
+  /\ mem_id (ha_id (rq_arg 0)) (usage_members rq_built) = true
+  /\ (forall b i, In b (hc_args rq_built) -> ha_index b = Some i -> ha_index (rq_arg 5) = Some i -> ha_id b = ha_id (rq_arg 5)).
+Proof. exact rq_hyps. Qed.
 Print Assumptions C12_usage_required_satisfiable.
+
+(** its usage line: [p [OPTIONS] --x --r <r> <--a|--b <b>> <f>] (neither [--z] nor [[-- <l>...]]) *)
+Theorem C12_usage_required_example :
+  usage_pieces rq_built
+  = Some [[112]; s_options_tag; [45; 45; 120]; [45; 45; 114; 32; 60; 114; 62];
+          [60; 45; 45; 97; 124; 45; 45; 98; 32; 60; 98; 62; 62]; [60; 102; 62]].
+Proof. exact rq_usage. Qed.
+Print Assumptions C12_usage_required_example.
+
+(** the subcommand forms ([subcommand_value_name] = V): [[V]], [<V>] under [subcommand_required], a second
+    line [p [f] <V>] under [subcommand_negates_reqs], [p <V>] under [args_conflicts_with_subcommands] *)
+Theorem C12_usage_subcommand_forms :
+  usage_pieces (h_build_self (sf_cmd false false false))
+    = Some [[112]; [45; 45; 114; 32; 60; 114; 62]; [60; 102; 62]; [91; 86; 93]]
+  /\ usage_pieces (h_build_self (sf_cmd false false true))
+    = Some [[112]; [45; 45; 114; 32; 60; 114; 62]; [60; 102; 62]; [60; 86; 62]]
+  /\ usage_pieces (h_build_self (sf_cmd true false false))
+    = Some [[112]; [45; 45; 114; 32; 60; 114; 62]; [60; 102; 62]; s_usage_sep; [112]; [91; 102; 93]; [60; 86; 62]]
+  /\ usage_pieces (h_build_self (sf_cmd false true false))
+    = Some [[112]; [45; 45; 114; 32; 60; 114; 62]; [60; 102; 62]; s_usage_sep; [112]; [60; 86; 62]].
+Proof. exact sf_usage. Qed.
+Print Assumptions C12_usage_subcommand_forms.
+
+(** observation (the class of [C12_usage_hides_hidden] is sharp): a hidden optional argument that is a
+    member of a required group is printed by [format_group]: [p <--a|--z>] *)
+Theorem C12_usage_hidden_group_member_shown :
+  exists c a, In a (hc_args c) /\ ha_hide a = true /\ ha_required a = false /\ ha_long a = Some [122]
+    /\ refs_ok (h_build_self c) = true
+    /\ usage_pieces (h_build_self c) = Some [[112]; [60; 45; 45; 97; 124; 45; 45; 122; 62]].
+Proof. exact hidden_group_member_shown. Qed.
+Print Assumptions C12_usage_hidden_group_member_shown.
 
 (** ---- round 2: global arguments are inherited into the subcommand levels ---- *)
 
@@ -259,3 +340,173 @@ Theorem C12_globals_satisfiable :
     /\ map ha_id (hc_args lv) = [[111]; [103]; s_help].
 Proof. exact gl_cmd_level. Qed.
 Print Assumptions C12_globals_satisfiable.
+
+(** ---- round 3: custom help templates ([Command::help_template], [write_templated_help]) ---- *)
+
+(** for EVERY template text, rendering a built command whose references resolve does not panic *)
+Theorem C12_template_total : forall dw cx c t, cmd_ok dw c -> refs_ok c = true -> write_templated_help dw cx c t <> None.
+Proof. exact template_total. Qed.
+Print Assumptions C12_template_total.
+
+(** the tags dispatch to the writers of the default template: [{options}] = [write_args] over ALL arguments that
+    are not positional (custom headings included), [{positionals}] = [write_args] over the positionals,
+    [{subcommands}] = [write_subcommands], [{all-args}] = [write_all_args] -- each with its visibility filter *)
+Theorem C12_template_tag_dispatch : forall dw cx c,
+  write_tag dw cx c t_options
+    = (dO rows <- write_args dw cx (filter (fun a => negb (ha_is_positional a)) (hc_args c)) option_sort_key; Some (TPOptions rows))
+  /\ write_tag dw cx c t_positionals
+    = (dO rows <- write_args dw cx (filter ha_is_positional (hc_args c)) positional_sort_key; Some (TPPositionals rows))
+  /\ write_tag dw cx c t_subcommands = (dO rows <- write_subcommands dw cx c; Some (TPSubcommands rows))
+  /\ write_tag dw cx c t_all_args = (dO secs <- write_all_args dw cx c; Some (TPAllArgs secs)).
+Proof. intros dw cx c. exact (conj (tag_options dw cx c) (conj (tag_positionals dw cx c) (conj (tag_subcommands dw cx c) (tag_all_args dw cx c)))). Qed.
+Print Assumptions C12_template_tag_dispatch.
+
+(** hidden-absent, for every template and every tag: each row any piece of the rendered template contains comes
+    from an argument shown in the rendered mode (listing only possible values that are not hidden) or from a
+    subcommand that is not hidden *)
+Theorem C12_template_hides_hidden : forall dw cx c t ps p r,
+  cmd_ok dw c -> write_templated_help dw cx c t = Some ps -> In p ps -> In r (piece_rows p) ->
+  (exists a, In a (hc_args c) /\ should_show_arg (cx_use_long cx) a = true /\ r_id r = ha_id a
+             /\ forall v, In v (r_pvs r) -> exists pv, In pv (ha_pvs a) /\ pv_hide pv = false /\ pv_name pv = v)
+  \/ (exists sc, In sc (hc_subs c) /\ hc_hide sc = false /\ r_id r = hc_name sc /\ r_pvs r = []).
+Proof. exact template_hides_hidden. Qed.
+Print Assumptions C12_template_hides_hidden.
+
+(** visible-listed, per tag: the output of [{options}] has a row for every shown argument that is not positional,
+    [{positionals}] for every shown positional, [{subcommands}] for every subcommand that is not hidden,
+    [{all-args}] for every shown argument (in its section) and every visible subcommand *)
+Theorem C12_template_lists_visible : forall dw cx c t ps,
+  NoDup (map ha_id (hc_args c)) -> NoDup (map sc_str (hc_subs c)) ->
+  write_templated_help dw cx c t = Some ps ->
+  (forall rows a, In (TPOptions rows) ps -> In a (hc_args c) -> ha_is_positional a = false ->
+                  should_show_arg (cx_use_long cx) a = true -> exists r, In r rows /\ r_id r = ha_id a)
+  /\ (forall rows a, In (TPPositionals rows) ps -> In a (hc_args c) -> ha_is_positional a = true ->
+                     should_show_arg (cx_use_long cx) a = true -> exists r, In r rows /\ r_id r = ha_id a)
+  /\ (forall rows sc, In (TPSubcommands rows) ps -> In sc (hc_subs c) -> hc_hide sc = false ->
+                      exists r, In r rows /\ r_id r = hc_name sc)
+  /\ (forall secs a, In (TPAllArgs secs) ps -> In a (hc_args c) -> should_show_arg (cx_use_long cx) a = true ->
+                     exists sec r, In sec secs /\ s_title sec = arg_section_title a /\ In r (s_rows sec) /\ r_id r = ha_id a)
+  /\ (forall secs sc, In (TPAllArgs secs) ps -> In sc (hc_subs c) -> hc_hide sc = false -> hc_name sc <> s_help ->
+                      exists sec r, In sec secs /\ s_title sec = sub_section_title c /\ In r (s_rows sec) /\ r_id r = hc_name sc).
+Proof. exact template_lists_visible. Qed.
+Print Assumptions C12_template_lists_visible.
+
+(** non-vacuity: ["U {usage}|O:{options}|P:{positionals}|S:{subcommands}|{zz}{all-args}{open"] on [ex_cmd] (whose
+    hypotheses are [C12_hypotheses_satisfiable]): the hidden [--hi] and the hidden subcommand [t] are in no piece *)
+Theorem C12_template_example :
+  option_map (map tp_shape) (write_templated_help len (mkCtx false 80 false) (h_build_self ex_cmd) tp_template)
+  = Some [ ([116], [[85; 32]]); ([117], [[112]; s_options_tag; [60; 102; 62]; [91; 67; 79; 77; 77; 65; 78; 68; 93]]);
+           ([116], [[124; 79; 58]]); ([111], [[111]; [118]; s_help; s_version]);
+           ([116], [[124; 80; 58]]); ([112], [[102]]);
+           ([116], [[124; 83; 58]]); ([115], [[115]; s_help]);
+           ([116], [[124]]); ([116], [[123; 122; 122; 125]]); ([116], [[]]);
+           ([97], [s_commands; s_arguments; s_options; [72]]); ([116], [[]]) ].
+Proof. exact tp_renders. Qed.
+Print Assumptions C12_template_example.
+
+(** ---- round 3: [next_help_heading] / [subcommand_help_heading] ---- *)
+
+(** builder calls in the user's order ([apply_headings] = the heading part of [arg_internal]): an argument without
+    a heading of its own, added after [next_help_heading(h)] with no other such call in between, carries [h] -- so
+    [C12_lists_visible_args] lists it in the section titled [h] ([arg_section_title]); one with its own heading keeps it *)
+Theorem C12_next_heading_applies : forall pre h mid a post current,
+  only_args mid -> ha_heading a = None ->
+  In (a <| ha_heading := h |>) (apply_headings (pre ++ BNextHeading h :: mid ++ BArg a :: post) current).
+Proof. exact next_heading_applies. Qed.
+Print Assumptions C12_next_heading_applies.
+
+Theorem C12_own_heading_wins : forall pre a post current g,
+  ha_heading a = Some g -> In a (apply_headings (pre ++ BArg a :: post) current).
+Proof. exact own_heading_wins. Qed.
+Print Assumptions C12_own_heading_wins.
+
+(** end to end: [--a], next_help_heading("N"), [--b], [--c] (own heading "H"), next_help_heading(None), [--d],
+    subcommand_help_heading("S"): sections S, Options (a, d, help), N (b), H (c) *)
+Theorem C12_headings_example :
+  match render_help len nh_cmd false 80 with
+  | Some s => map (fun sec => (s_title sec, map r_id (s_rows sec))) (scr_sections s)
+  | None => []
+  end
+  = [ ([83], [[115]; s_help]); (s_options, [[97]; [100]; s_help]); ([78], [[98]]); ([72], [[99]]) ].
+Proof. exact nh_renders. Qed.
+Print Assumptions C12_headings_example.
+
+(** round 3: the [OPTIONS] tag of the usage line, declaratively (so: options that are all hidden, required or
+    members of a required group never cause it) *)
+Theorem C12_options_tag_iff : forall c,
+  needs_options_tag c = true <->
+  exists f, In f (hc_args c) /\ ha_is_positional f = false
+    /\ opt_is (ha_long f) s_help = false /\ opt_is (ha_long f) s_version = false
+    /\ is_help_or_version_action (ha_action f) = false
+    /\ ha_hide f = false /\ ha_required f = false /\ in_required_group c f = false.
+Proof. exact options_tag_iff. Qed.
+Print Assumptions C12_options_tag_iff.
+
+(** round 3: [refs_ok] is a property of the USER's command -- [_build_self] keeps the groups and the id / [required] /
+    [requires] of every argument and only appends the generated [--help] / [--version] (which require nothing) *)
+Theorem C12_refs_ok_build : forall c, refs_ok c = true -> refs_ok (h_build_self c) = true.
+Proof. exact refs_ok_build. Qed.
+Print Assumptions C12_refs_ok_build.
+
+(** [Command::render_help] / [render_long_help] / [render_usage] never panic: hypotheses on the user's command *)
+Theorem C12_render_total_user : forall dw c use_long w,
+  hc_built c = false -> spec_ok c -> refs_ok c = true -> widths_ok dw (h_build_self c) ->
+  render_help dw c use_long w <> None /\ render_usage c <> None.
+Proof. exact render_total_user. Qed.
+Print Assumptions C12_render_total_user.
+
+(** ---- round 3: the generated [-h] / [--help] of a level is a help flag of that level ---- *)
+
+(** [long_help_at] / [short_help_at] derived: the level passes [assert_app], contains the generated help argument
+    ([built_help_arg] = [arg_build help_arg]: the help flag is not disabled there) and no subcommand answers to
+    the token (a subcommand may be NAMED [--help]: the condition is necessary) *)
+Theorem C12_generated_help_is_help_flag : forall lv,
+  assert_app lv = true -> In built_help_arg (c_args lv) ->
+  (possible_subcommand lv tok_help_long false = None -> long_help_at lv true = true)
+  /\ (possible_subcommand lv tok_help_short false = None ->
+      match get_pos lv 1 with Some a => negb (a_negnum a) && negb (a_hyphen a && negb (a_last a)) | None => true end = true ->
+      short_help_at lv false = true).
+Proof. intros lv V Hin. exact (conj (gen_long_help_at lv V Hin) (gen_short_help_at lv V Hin)). Qed.
+Print Assumptions C12_generated_help_is_help_flag.
+
+(** the build puts it there: [x] = the command after the settings / propagation blocks of [_build_self] *)
+Theorem C12_build_has_help : forall c,
+  s_built (c_set c) = false -> is_set s_disable_help_flag (bs_propagate (bs_settings c)) = false ->
+  In built_help_arg (c_args (build_self c)).
+Proof. exact build_self_has_help. Qed.
+Print Assumptions C12_build_has_help.
+
+(** [C12_help_flag_long_level] / [_short_level] without the [long_help_at] / [short_help_at] hypothesis: [--help]
+    resp. [-h] after a chain of subcommand names yields the help of the level at the END of the chain, in long resp.
+    short mode ([assert_app] of that level comes out of [valid c0]) *)
+Theorem C12_help_flag_long_level_gen : forall c0 bin names rest lv,
+  is_set s_no_binary_name c0 = false -> c_bin_name c0 <> None ->
+  valid c0 = true -> help_chain (build_self c0) names = Some lv ->
+  In built_help_arg (c_args lv) -> possible_subcommand lv tok_help_long false = None ->
+  parse_top c0 (bin :: names ++ tok_help_long :: rest) = OErr (help_err lv true)
+  /\ p_level_walk (build_self c0) names = Some lv
+  /\ e_kind (help_err lv true) = EDisplayHelp /\ e_cmd (help_err lv true) = opt_default [] (c_about lv)
+  /\ e_long (help_err lv true) = true.
+Proof. exact help_flag_long_level_gen. Qed.
+Print Assumptions C12_help_flag_long_level_gen.
+
+Theorem C12_help_flag_short_level_gen : forall c0 bin names rest lv,
+  is_set s_no_binary_name c0 = false -> c_bin_name c0 <> None ->
+  valid c0 = true -> help_chain (build_self c0) names = Some lv ->
+  In built_help_arg (c_args lv) -> possible_subcommand lv tok_help_short false = None ->
+  match get_pos lv 1 with Some a => negb (a_negnum a) && negb (a_hyphen a && negb (a_last a)) | None => true end = true ->
+  parse_top c0 (bin :: names ++ tok_help_short :: rest) = OErr (help_err lv false)
+  /\ p_level_walk (build_self c0) names = Some lv
+  /\ e_kind (help_err lv false) = EDisplayHelp /\ e_cmd (help_err lv false) = opt_default [] (c_about lv)
+  /\ e_long (help_err lv false) = false.
+Proof. exact help_flag_short_level_gen. Qed.
+Print Assumptions C12_help_flag_short_level_gen.
+
+(** non-vacuity: the three-level example of [C12_help_chain_satisfiable] satisfies the new hypotheses *)
+Theorem C12_help_flag_gen_satisfiable :
+  exists lv, help_chain (build_self hd_root) hd_names = Some lv
+    /\ In built_help_arg (c_args lv)
+    /\ possible_subcommand lv tok_help_long false = None /\ possible_subcommand lv tok_help_short false = None
+    /\ match get_pos lv 1 with Some a => negb (a_negnum a) && negb (a_hyphen a && negb (a_last a)) | None => true end = true.
+Proof. exact hd_gen_hyps. Qed.
+Print Assumptions C12_help_flag_gen_satisfiable.
